@@ -239,7 +239,27 @@ def run_case(case):
     # the SAME key / fields objects are handed to the step twice (second use): a step must not corrupt its arguments
     second_use = boot.rng(case['seed'], 'C11', 'reuse', case['idx']).random() < 0.2 and not spill
 
+    # the source stays in the package and a later step reads only its first two rows: the join still sees every source row
+    partial = mode != 'dedup' and not source_delete and not spill and \
+        boot.rng(case['seed'], 'C11', 'partial', case['idx']).random() < 0.3
+    if partial:
+        import itertools
+        cfg['later_step_reads_only_2_source_rows'] = True
+        cov['key_shape']['later_step_reads_source_partially'] = 1
+
+    def head_of_source(package):
+        yield package.pkg
+        for res in package:
+            if res.res.name == 'src':
+                yield itertools.islice(res, 2)
+            else:
+                yield res
+
     def build():
+        if partial:
+            return [lab.source('src', sf, S), lab.source('tgt', gen.schema_fields(t_fields), T),
+                    d.join('src', copy.deepcopy(source_key), 'tgt', copy.deepcopy(target_key),
+                           copy.deepcopy(fields), mode=mode, source_delete=source_delete), head_of_source]
         if mode == 'dedup':
             return [lab.source('src', sf, S),
                     d.join_with_self('src', copy.deepcopy(source_key), copy.deepcopy(fields))]
@@ -284,7 +304,7 @@ def run_case(case):
         add('resources', '%r: resources %r expected %r' % (cfg, got.names, want_names))
         return dict(nontrivial=False, violations=viol, cov=cov, counters=counters)
     if mode != 'dedup' and not source_delete:
-        diffs = lab.rows_diff(S, gg['src'][1])
+        diffs = lab.rows_diff(S[:2] if partial else S, gg['src'][1])
         if diffs:
             add('source_changed', '%r: source rows changed: %s' % (cfg, diffs))
     out_name = 'src' if mode == 'dedup' else 'tgt'
